@@ -114,9 +114,10 @@ func c04Exec(x *engine.Ctx, cc any) {
 		x.Eval(n - 1)
 	case "dur":
 		var n int64
-		ys := []string{"", "0y", "1y", "5y", "25y", "100y"}
-		ms := []string{"", "0m", "1m", "11m", "12m", "13m", "25m"}
-		ds := []string{"", "0d", "1d", "28d", "31d", "365d", "366d", "1000d"}
+		// leading zeros are part of the schema's [0-9]+ (and must be read as decimal)
+		ys := []string{"", "0y", "1y", "5y", "25y", "100y", "010y", "08y"}
+		ms := []string{"", "0m", "1m", "11m", "12m", "13m", "25m", "09m", "0012m"}
+		ds := []string{"", "0d", "1d", "28d", "31d", "365d", "366d", "1000d", "0030d", "08d"}
 		for _, y := range ys {
 			for _, m := range ms {
 				for _, d := range ds {
@@ -222,7 +223,7 @@ func init() {
 	register(&engine.Check{
 		ID:          "C04",
 		Level:       "exploration",
-		Rule:        "every calendar date of the years {1950,1999,2000,2024,2049,2050,2100,2200} (quick) / of every year 1950..2200 in two zones (thorough) as `from` (with duration 1y) and as `until`, in 8 local time zones (UTC, Berlin, New York, Kolkata, Kiritimati +14, Pago Pago -11, Lord Howe 30-minute DST, Havana DST at midnight); duration grid y{-,0,1,5,25,100} x m{-,0,1,11,12,13,25} x d{-,0,1,28,31,365,366,1000} from 12 month-end / leap-day start dates and from the run time; all 8 x (1+8) presence combinations of from/until/duration in certificate and profile. Each through a whole gopki run with an existing P-224 key; oracle = own proleptic-Gregorian arithmetic for local midnight and calendar addition, UTCTime/GeneralizedTime by year, inheritance rule. non-trivial = distinct (zone, block, profile block)",
+		Rule:        "every calendar date of the years {1950,1999,2000,2024,2049,2050,2100,2200} (quick) / of every year 1950..2200 in two zones (thorough) as `from` (with duration 1y) and as `until`, in 8 local time zones (UTC, Berlin, New York, Kolkata, Kiritimati +14, Pago Pago -11, Lord Howe 30-minute DST, Havana DST at midnight); duration grid y{-,0,1,5,25,100,010,08} x m{-,0,1,11,12,13,25,09,0012} x d{-,0,1,28,31,365,366,1000,0030,08} (leading zeros are decimal) from 12 month-end / leap-day start dates and from the run time; all 8 x (1+8) presence combinations of from/until/duration in certificate and profile. Each through a whole gopki run with an existing P-224 key; oracle = own proleptic-Gregorian arithmetic for local midnight and calendar addition, UTCTime/GeneralizedTime by year, inheritance rule. non-trivial = distinct (zone, block, profile block)",
 		Bound:       map[string]string{"dates": "quick 8 years x 8 zones; thorough 1950-2200 x 2 zones + 8 years x 6 zones"},
 		Assumptions: []string{"the zone offset tables of Go's embedded tzdata are trusted; in a DST gap/overlap at local midnight either offset is accepted", "without `from`, notBefore must lie within the measured run interval +-1 s", "calendar-invalid dates are only required not to crash (C20)"},
 		Budget:      budgets(quickBudget, thoroughBudget),
